@@ -51,6 +51,7 @@ let cls_str = function
   | INoId -> "NoId" | IEmptyId -> "EmptyId" | IHistMulti -> "HistMulti" | IHistNone -> "HistNone"
   | IHistCond -> "HistCond" | IHistEvent -> "HistEvent" | IHistNoTarget -> "HistNoTarget"
   | IHistDeepIllegal -> "HistDeepIllegal" | IHistShallowIllegal -> "HistShallowIllegal"
+  | IHistPseudoTarget -> "HistPseudoTarget"
   | IUnreachable -> "Unreachable" | IDuplicate -> "Duplicate"
   | ITransEmptyTargets -> "TransEmptyTargets" | ITransNoSuchTarget -> "TransNoSuchTarget"
   | IUselessHistAtomic -> "UselessHistAtomic" | IUselessHistSingle -> "UselessHistSingle"
@@ -65,7 +66,7 @@ let variant_of (s : string) : vvariant =
   let b i = String.length s > i && s.[i] = '1' in
   { vv_getstates_null = b 0; vv_any_parallel_ancestor = b 1; vv_root_initial_unchecked = b 2;
     vv_initial_target_optional = b 3; vv_id_required = b 4; vv_nesting_warning_only = b 5;
-    vv_empty_initial_unchecked = b 6 }
+    vv_empty_initial_unchecked = b 6; vv_hist_pseudo_target_unchecked = b 7 }
 
 let find_el (d : gdoc) (p : nat list) : el =
   let r = root_el d in
